@@ -127,9 +127,13 @@ def examine(chk, name, start, prods, tags, tier, stats):
             return None
         case = Case(name, start, prods, tags)
         sym, code = lr1dump.Interner(), lr1dump.Interner()
-        aut, plist = lr1dump.dump_automaton(parser, "g", False, sym, code)
-        case.lines += [aut, lr1dump.gram_line(start, prods, sym),
-                       lr1dump.cert_line(parser, g.productions, sym), "LRVALID g"]
+        # duplicate productions collapse (Production is a value type): the model grammar is
+        # the production list without repetitions, seed production last
+        uprods = list(dict.fromkeys(prods))
+        allp = uprods + [g.productions[-1]]
+        aut, plist = lr1dump.dump_automaton(parser, "g", False, sym, code, prod_list=allp)
+        case.lines += [aut, lr1dump.gram_line(start, uprods, sym),
+                       lr1dump.cert_line(parser, allp, sym), "LRVALID g"]
         case.checks.append((3, "valid", None))
         alphabet = list(oracle.terminals)
         if len(alphabet) <= 3 and "z" not in alphabet:
@@ -462,7 +466,7 @@ def run(tier):
     model_ok = common.proof_gate(chk, search)
     stats = new_stats()
     pinned(chk)
-    n = 150 if tier == "quick" else 2500
+    n = 150 if tier == "quick" else 1000
     cases = all_cases(chk, tier, stats, n, "C08")
     cases += emboss_cases(chk, tier, stats, model_ok)
     for c in cases:
